@@ -210,6 +210,20 @@ function runFindingWitnesses(ctx) {
   const b = compileMany([{ id: 0, files: [['p', w2]], scripts: [] }], WANT1).get(0)
   if (b.files.p.str_plain === '<a/>') report.knownHit(...KNOWN_EMPTY)
   else report.notes.push('STALE-FINDING empty-string-binding-dropped: the witness now prints ' + b.files.p.str_plain)
+  // findings recorded by their witness only (the generator does not produce these inputs)
+  const printOf = (src, key = 'str_plain') => compileMany([{ id: 0, files: [['p', src]], scripts: [] }], WANT1).get(0).files.p[key]
+  const witnessOnly = [
+    ['wxs-end-tag-lookalike-rewritten', '<wxs module="m">exports.s = "</wxs-view>"</wxs>{{m.s}}', 'str_plain', (t) => t.includes('< /wxs-view>'), 'inside an inline <wxs>, `</wxs` followed by name characters (e.g. the string "</wxs-view>") is printed as `< /wxs-view>`: the script text changes (pinned by parse::tag::test::script)'],
+    ['template-data-parentheses-dropped', '<template name="t">{{a}}</template><template is="t" data="{{ (obj) }}"/>', 'str_plain', (t) => t.includes('data="{{obj}}"'), '`<template is="t" data="{{ (obj) }}"/>` is printed as `data="{{obj}}"`, which re-parses as the object shorthand `{obj}`'],
+    ['mangled-name-captures-user-identifier', '<x-a><v slot:a="b">{{ _$0 }}|{{ b }}</v></x-a>', 'str_mangled', (t) => /\{\{_\$0\}\}\|\{\{_\$0\}\}/.test(t), 'with set_mangling(true) a data field that is itself named `_$0` is captured by the mangled scope name `_$0`'],
+    ['attribute-name-emptied-by-normalisation', '<div data-="1"/>', 'str_plain', (t) => t.includes('data:='), '`<div data-="1">` (a name that is empty after the prefix is stripped) is accepted silently and printed as `data:="1"`, which re-parses with a warning'],
+  ]
+  for (const [slug, src, key, pred, text] of witnessOnly) {
+    let t
+    try { t = printOf(src, key) } catch (e) { t = undefined }
+    if (typeof t === 'string' && pred(t)) report.knownHit(slug, text)
+    else report.notes.push(`STALE-FINDING ${slug}: the witness now prints ${t}`)
+  }
 }
 
 export async function run(ctx) {
